@@ -8,7 +8,9 @@
 //   CLASS FORMAT SEED VARIANT DIFF <observable>: orig=<value> restored=<value>
 //   CLASS FORMAT SEED VARIANT EXC <message>
 //   CLASS FORMAT SEED VARIANT SKIP unknown-case
-//   CLASS FORMAT SEED VARIANT CRASH sig=<n>      (fatal signal inside the case; the driver continues)
+//   CLASS FORMAT SEED VARIANT CRASH sig=<n>      (fatal signal inside the case)
+// After a CRASH line the process image may be corrupted, therefore the driver re-executes itself
+// (internal third argument: number of input lines already consumed) and continues with the next line.
 // The prefix "CLASS FORMAT SEED VARIANT " is written and flushed BEFORE the case runs, so that a hard
 // crash that cannot be recovered is still attributable to the (then unterminated) last line.
 #include "c18_rt.h"
@@ -50,10 +52,11 @@ int main(int argc, char** argv) {
 	registerData(cases);
 	registerOpt(cases);
 
-	if (argc != 2) {
+	if (argc != 2 && argc != 3) {
 		std::cerr << "usage: c18_roundtrip --list | <casefile>\n";
 		return 2;
 	}
+	unsigned long skipLines = (argc == 3) ? std::strtoul(argv[2], 0, 10) : 0; // internal: resume after a crash
 	if (std::string(argv[1]) == "--list") {
 		for (std::size_t i = 0; i != cases.size(); ++i) std::cout << cases[i].cls << " " << cases[i].variant << "\n";
 		return 0;
@@ -73,7 +76,10 @@ int main(int argc, char** argv) {
 	sigaction(SIGILL, &sa, 0);
 
 	std::string line;
+	unsigned long lineNo = 0;
 	while (std::getline(in, line)) {
+		++lineNo;
+		if (lineNo <= skipLines) continue;
 		std::istringstream ls(line);
 		std::string cls, fmt, seedStr, variant;
 		if (!(ls >> cls)) continue; // empty line
@@ -125,6 +131,13 @@ int main(int argc, char** argv) {
 			result = "CRASH sig=" + std::to_string((int)g_sig);
 		}
 		std::cout << result << std::endl;
+		if (result.compare(0, 5, "CRASH") == 0) {
+			// continue in a clean process image
+			std::string n = std::to_string(lineNo);
+			char* args[4] = {argv[0], argv[1], const_cast<char*>(n.c_str()), 0};
+			execv("/proc/self/exe", args);
+			// exec failed: carry on in this process
+		}
 	}
 	return 0;
 }
